@@ -75,6 +75,9 @@ func loadWorld(pkgDirs []string) (*World, error) {
 				u.Specs = cf
 				for _, fs := range cf.Funcs {
 					fs.Pkg = p.PkgPath
+					if prev := u.FSpecs[fs.Name]; prev != nil {
+						return nil, fmt.Errorf("%s:%d: second contract for %s (first at line %d)", cpath, fs.Line, fs.Name, prev.Line)
+					}
 					u.FSpecs[fs.Name] = fs
 				}
 				for _, ts := range cf.Types {
@@ -419,6 +422,12 @@ func (w *World) verifyFunc(u *Unit, name string) (ex *Exec, err error) {
 	}
 	if fs != nil && fs.Terminates {
 		ex.terminationCheck(fs, body, name)
+	}
+	if fs != nil && len(fs.CalledOnlyBy) > 0 && lit == nil {
+		ex.calledOnlyByCheck(fs, u, name, body.Pos())
+	}
+	if fs != nil && lit == nil && recvList != nil {
+		ex.pointerReceiverCheck(u, name, recvList, body.Pos())
 	}
 	// unlock site names
 	ex.unitBody = body
@@ -1015,6 +1024,64 @@ func init() {
 
 // checkFlows: syntactic frame/ownership condition on a parameter.
 func (ex *Exec) checkFlows(body *ast.BlockStmt, pname string, callees []string, pos token.Pos) {
+	if i := strings.Index(pname, "."); i > 0 {
+		// flows p.Field: callees - every mention of that field of the parameter
+		// is a direct argument of one of the callees
+		var obj types.Object
+		if o, ok := ex.entryState.names[pname[:i]]; ok {
+			obj = o
+		}
+		if obj == nil {
+			ex.obligeAST("flows", pname, pos, false, "no parameter/captured variable named "+pname[:i], nil)
+			return
+		}
+		field := pname[i+1:]
+		allowed := map[token.Pos]bool{}
+		ast.Inspect(body, func(x ast.Node) bool {
+			call, ok := x.(*ast.CallExpr)
+			if !ok {
+				return true
+			}
+			fn := ex.calleeOf(call)
+			if fn == nil {
+				return true
+			}
+			okCallee := false
+			for _, k := range hookKeys(fn) {
+				for _, c := range callees {
+					if c == k {
+						okCallee = true
+					}
+				}
+			}
+			if okCallee {
+				for _, a := range call.Args {
+					if sel, ok := ast.Unparen(a).(*ast.SelectorExpr); ok {
+						allowed[sel.Pos()] = true
+					}
+				}
+			}
+			return true
+		})
+		uses, bad := 0, 0
+		var where []string
+		ast.Inspect(body, func(x ast.Node) bool {
+			sel, ok := x.(*ast.SelectorExpr)
+			if !ok || sel.Sel.Name != field {
+				return true
+			}
+			if id, ok := ast.Unparen(sel.X).(*ast.Ident); ok && ex.Info.ObjectOf(id) == obj {
+				uses++
+				if !allowed[sel.Pos()] {
+					bad++
+					where = append(where, ex.posStr(sel.Pos()))
+				}
+			}
+			return true
+		})
+		ex.obligeAST("flows", pname, pos, bad == 0 && uses >= 1, fmt.Sprintf("%s is mentioned %d time(s); mentions other than as argument of %v at %v", pname, uses, callees, where), nil)
+		return
+	}
 	var obj types.Object
 	if o, ok := ex.entryState.names[pname]; ok {
 		obj = o
@@ -1626,4 +1693,68 @@ func (ex *Exec) terminationCheck(fs *FuncSpec, body ast.Node, name string) {
 	ex.obligeAST("termination", "every_loop_is_finite_and_nothing_recurs", body.Pos(), ok,
 		name+": "+strings.Join(why, "; "), nil)
 	ex.W.Trusted["termination of "+ex.FName+": library functions called by it return; `range` over a slice, array, string, map, integer or a finite library iterator ends"] = true
+}
+
+// calledOnlyByCheck (clause `calledonlyby A, B`): every call of the function
+// in its package (test files excluded) is in the body of one of the listed
+// functions.  Used where a function has an effect that is only right for one
+// kind of caller (writePlain drops its argument while muted: only shell
+// output may go through it).
+func (ex *Exec) calledOnlyByCheck(fs *FuncSpec, u *Unit, name string, pos token.Pos) {
+	allowed := map[string]bool{}
+	for _, a := range fs.CalledOnlyBy {
+		allowed[a] = true
+	}
+	target := u.Funcs[name]
+	if target == nil {
+		return
+	}
+	tobj := u.Pkg.TypesInfo.Defs[target.Name]
+	var bad []string
+	names := make([]string, 0, len(u.Funcs))
+	for n := range u.Funcs {
+		names = append(names, n)
+	}
+	sort.Strings(names)
+	for _, n := range names {
+		fd := u.Funcs[n]
+		if fd.Body == nil || allowed[n] {
+			continue
+		}
+		ast.Inspect(fd.Body, func(x ast.Node) bool {
+			var id *ast.Ident
+			switch f := x.(type) {
+			case *ast.SelectorExpr:
+				id = f.Sel
+			case *ast.Ident:
+				id = f
+			}
+			if id != nil && tobj != nil && u.Pkg.TypesInfo.Uses[id] == tobj {
+				bad = append(bad, n+" ("+ex.posStr(id.Pos())+")")
+			}
+			return true
+		})
+	}
+	ex.obligeAST("callers", "only_"+strings.Join(fs.CalledOnlyBy, "_"), pos, len(bad) == 0,
+		fmt.Sprintf("%s is also used by %s", name, strings.Join(bad, ", ")), nil)
+}
+
+// pointerReceiverCheck: a method of a type that declares a lock (or embeds
+// sync state the contracts rely on) must have a pointer receiver: with a
+// value receiver every call works on a private copy of the locks and of the
+// state they protect (go vet's copylocks, here an obligation because the
+// repository's test command runs with -vet=off).
+func (ex *Exec) pointerReceiverCheck(u *Unit, name string, recv *ast.FieldList, pos token.Pos) {
+	if len(recv.List) != 1 {
+		return
+	}
+	t := recv.List[0].Type
+	_, isPtr := t.(*ast.StarExpr)
+	tn := recvTypeName(t)
+	ts := u.TSpecs[tn]
+	if ts == nil || len(ts.Locks) == 0 {
+		return
+	}
+	ex.obligeAST("receiver", "pointer_receiver_on_a_type_with_locks", pos, isPtr,
+		fmt.Sprintf("%s has a value receiver: every call copies %s with its locks and the state they protect", name, tn), nil)
 }
